@@ -27,7 +27,9 @@ type PlanReader struct {
 	Data        []byte
 	Chunks      []int
 	EOFWithData bool
-	Events      []ReadEvent
+	// Boundaries are absolute offsets that no single read crosses
+	Boundaries []int
+	Events     []ReadEvent
 	KeepEvents  bool
 
 	off   int
@@ -54,6 +56,11 @@ func (r *PlanReader) Read(p []byte) (int, error) {
 	r.calls++
 	if n > len(r.Data)-r.off {
 		n = len(r.Data) - r.off
+	}
+	for _, b := range r.Boundaries {
+		if b > r.off && b < r.off+n {
+			n = b - r.off
+		}
 	}
 	copy(p, r.Data[r.off:r.off+n])
 	r.off += n
